@@ -93,6 +93,9 @@ let handle (toks : Stdlib.String.t list) : Stdlib.String.t =
           | TR r -> show_out (Ret r)
           | TU (pre, fr) -> "U" ^ hex_of_bytes (Stdlib.List.append pre fr))
         (run_aconv (mode_of m) (v = "1") tab rs (Stdlib.List.map wev_of wevs) cancels wsched))
+  | "kareply" :: m :: ws ->
+      let ((d, r), _) = reply_then_return (pong_frame (mode_of m)) (Stdlib.List.map wev_of ws) in
+      hex_of_bytes d ^ " " ^ show_wres r
   | ["awrite"; h] ->
       let (its, n) = awrite (bytes_of_hex h) in
       Stdlib.String.concat " " (Stdlib.List.map show_item its) ^ " " ^ string_of_int (int_of_nat n)
